@@ -678,3 +678,43 @@ def inline_single_use_temps(fn) -> List[str]:
         if not changed:
             break
     return done
+
+
+def forward_attr_stores(fn) -> int:
+    """t = E ; X.a = t   ->   X.a = E ; t = X.a   (the alias inliner then replaces t by X.a where X.a cannot have changed)"""
+    count = 0
+    stores: Dict[str, int] = {}
+    for n in ast.walk(fn):
+        if isinstance(n, ast.Name) and isinstance(n.ctx, (ast.Store, ast.Del)):
+            stores[n.id] = stores.get(n.id, 0) + 1
+    a = fn.args
+    params = {x.arg for x in a.posonlyargs + a.args + a.kwonlyargs}
+    for body in _stmt_blocks(fn):
+        for i in range(len(body) - 1):
+            s, nxt = body[i], body[i + 1]
+            if not (isinstance(s, ast.Assign) and len(s.targets) == 1 and isinstance(s.targets[0], ast.Name)):
+                continue
+            t = s.targets[0].id
+            if t in params or stores.get(t, 0) != 1:
+                continue
+            if not (isinstance(nxt, ast.Assign) and len(nxt.targets) == 1 and isinstance(nxt.targets[0], ast.Attribute) and isinstance(nxt.value, ast.Name) and nxt.value.id == t):
+                continue
+            base = nxt.targets[0].value
+            while isinstance(base, ast.Attribute):
+                base = base.value
+            if not isinstance(base, ast.Name) or base.id == t or stores.get(base.id, 0) > 0 and base.id not in params:
+                continue
+            if isinstance(s.value, (ast.Name, ast.Attribute, ast.Constant)):
+                continue  # already an alias
+            target = nxt.targets[0]
+            new1 = ast.Assign(targets=[target], value=s.value)
+            load = ast_copy(target)
+            load.ctx = ast.Load()
+            new2 = ast.Assign(targets=[ast.Name(id=t, ctx=ast.Store())], value=load)
+            ast.copy_location(new1, s)
+            ast.copy_location(new2, nxt)
+            ast.fix_missing_locations(new1)
+            ast.fix_missing_locations(new2)
+            body[i], body[i + 1] = new1, new2
+            count += 1
+    return count
